@@ -27,6 +27,8 @@ RENDERS = {"pf": dict(fw="pydantic", structure="flat"), "an": dict(fw="attrs", s
            "df": dict(fw="dataclasses", structure="flat", converters=True), "bn": dict(fw="base", structure="nested"),
            "d3": dict(fw="dataclasses", structure="flat", max_literals=3), "b16": dict(fw="base", structure="flat", max_literals=16),
            "sf": dict(fw="sqlmodel", structure="flat"),
+           # string converters on for the plain and the attrs generator (df has them on for dataclasses)
+           "bc": dict(fw="base", structure="flat", converters=True), "ac": dict(fw="attrs", structure="flat", converters=True),
            # nested layout even when the model graph is not a tree (a shared child): exercises the reference-path context
            "bN": dict(fw="base", structure="nested", force_nested=True), "dN": dict(fw="dataclasses", structure="nested", force_nested=True)}
 
@@ -185,6 +187,8 @@ def run_sched(ops, segments):
     wrap(mb.GenericModelCodeGenerator, "generate")
     wrap(gm.MetadataGenerator, "generate")
     wrap(rm.ModelRegistry, "merge_models")
+    if hasattr(rm.ModelRegistry, "_models_cmp_fn"):
+        wrap(rm.ModelRegistry, "_models_cmp_fn")        # every pairwise similarity test inside merge_models
     results = [None] * n
 
     def work(i):
